@@ -276,6 +276,40 @@ def prefix_viable(g, toks):
     return earley_prefix(g, toks)
 
 
+
+class CharOracle(Oracle):
+    """The same derivation oracle over the CHARACTERS of the input: a terminal matches wherever its string literal
+    occurs, so the derivation trees range over every tokenization (lexically ambiguous grammars with all lexical
+    disambiguation strategies switched off). Positions are character (= byte, ASCII only) offsets."""
+
+    def __init__(self, g, text, cap=10 ** 6):
+        import copy
+        g2 = copy.copy(g)
+        ml = {t: len(lit) for t, lit in g.terms.items()}
+        changed = True
+        while changed:
+            changed = False
+            for lhs, rhs in g.prods:
+                if all(x in ml for x in rhs):
+                    v = sum(ml[x] for x in rhs)
+                    if v < ml.get(lhs, 10 ** 9):
+                        ml[lhs] = v
+                        changed = True
+        g2.minlen = ml
+        super().__init__(g2, text, cap)
+        self.text = text
+
+    def count(self, X, i, j):
+        if X in self.g.terms:
+            return 1 if self.text[i:j] == self.g.terms[X] else 0
+        return super().count(X, i, j)
+
+    def trees(self, X, i, j, limit=2000):
+        if X in self.g.terms:
+            return [("T", X, i)] if self.text[i:j] == self.g.terms[X] else []
+        return super().trees(X, i, j, limit)
+
+
 def earley_prefix(g, toks):
     """Earley recogniser; returns (is_sentence, longest viable prefix length).
     A prefix w[:k] is viable iff chart[k] is non-empty (given all nonterminals productive)."""
